@@ -30,6 +30,7 @@ type Parser struct {
 	args        []Term
 
 	buf tokenRingBuffer
+	eof bool
 }
 
 // ParsedVariable is a set of information regarding a variable in a parsed term.
@@ -101,13 +102,27 @@ func (p *Parser) termOf(o reflect.Value) (Term, error) {
 
 func (p *Parser) next() (Token, error) {
 	if p.buf.empty() {
-		t, err := p.lexer.Token()
-		if err != nil {
-			return Token{}, err
+		t := Token{kind: tokenEOF}
+		if !p.eof { // Never reads beyond the end of input.
+			var err error
+			t, err = p.lexer.Token()
+			switch err {
+			case nil:
+				break
+			case io.EOF:
+				// Buffers the end of input as well so that backup() after a failed next() stays in step.
+				t, p.eof = Token{kind: tokenEOF}, true
+			default:
+				return Token{}, err
+			}
 		}
 		p.buf.put(t)
 	}
-	return p.buf.get(), nil
+	t := p.buf.get()
+	if t.kind == tokenEOF {
+		return Token{}, io.EOF
+	}
+	return t, nil
 }
 
 func (p *Parser) backup() {
